@@ -14,6 +14,7 @@ class Ty:
     def __hash__(self): return hash(repr(self))
 
 INT = Ty("int"); BOOL = Ty("bool"); STR = Ty("str"); REAL = Ty("real"); NONE = Ty("none")
+DEC = Ty("dec")      # decimal.Decimal: mathematical value + finiteness flag (NaN / Infinity are non-finite)
 def Opt(t): return Ty("opt", t)
 def Tup(*ts): return Ty("tuple", *ts)
 def UFList(t): return Ty("uflist", t)
@@ -31,6 +32,8 @@ def sort_of(ty):
     elif k == "str": s = z3.StringSort()
     elif k == "real": s = z3.RealSort()
     elif k == "abs": s = z3.DeclareSort(ty.args[0])
+    elif k == "dec":
+        d = z3.Datatype("Dec"); d.declare("mkdec", ("dval", z3.RealSort()), ("dfin", z3.BoolSort())); s = d.create()
     elif k == "opt":
         d = z3.Datatype("Opt_" + _mangle(ty.args[0])); d.declare("none"); d.declare("some", ("val", sort_of(ty.args[0]))); s = d.create()
     elif k == "tuple":
@@ -84,7 +87,23 @@ def lift(v):
     if isinstance(v, bool): return Sym(BOOL, z3.BoolVal(v))
     if isinstance(v, int): return Sym(INT, z3.IntVal(v))
     if isinstance(v, str): return Sym(STR, z3.StringVal(v))
+    import decimal as _dec
+    if isinstance(v, _dec.Decimal):
+        ds = sort_of(DEC)
+        if v.is_finite():
+            n, d = v.as_integer_ratio(); return Sym(DEC, ds.mkdec(z3.RealVal(n) / z3.RealVal(d) if d != 1 else z3.RealVal(n), z3.BoolVal(True)))
+        return Sym(DEC, ds.mkdec(z3.RealVal(0), z3.BoolVal(False)))
     raise TypeError("cannot lift %r" % (v,))
+
+def dec_val(z): return sort_of(DEC).dval(z)
+def dec_fin(z): return sort_of(DEC).dfin(z)
+def mk_dec(val, fin=True): return sort_of(DEC).mkdec(val, z3.BoolVal(fin) if isinstance(fin, bool) else fin)
+def to_real(v):
+    """numeric symbolic/concrete value -> z3 Real term (dec: its value)"""
+    v = lift(v)
+    if v.ty.kind == "dec": return dec_val(v.z)
+    if v.ty.kind == "int": return z3.ToReal(v.z)
+    return v.z
 
 def is_sym(v): return isinstance(v, Sym)
 
